@@ -22,6 +22,7 @@ type envState struct {
 	nowCalls    int
 	monoNanos   uint64
 	randCalls   int
+	md5uf       map[string]array
 	randDistinct bool
 	randBufs    [][]value
 	observed    []string
@@ -459,7 +460,29 @@ func init() {
 		for j, c := range cells {
 			bb, ok := c.(byte)
 			if !ok {
-				panic(engineError{"md5.Sum of symbolic data"})
+				// symbolic input: MD5 as an uninterpreted function (A3) -- sixteen fresh symbolic
+				// bytes, the same ones for the same input terms on this path
+				sig := ""
+				for _, c := range cells {
+					if sb, ok := c.(byte); ok {
+						sig += fmt.Sprintf("c%d,", sb)
+					} else {
+						sig += fmt.Sprintf("t%d,", fr.i.term(c).ID)
+					}
+				}
+				if fr.i.env.md5uf == nil {
+					fr.i.env.md5uf = map[string]array{}
+				}
+				if out, ok := fr.i.env.md5uf[sig]; ok {
+					return append(array(nil), out...)
+				}
+				out := make(array, 16)
+				n := len(fr.i.env.md5uf)
+				for j := range out {
+					out[j] = fr.i.ex.newEnvVar(fmt.Sprintf("md5_%d.%d", n, j), types.Uint8)
+				}
+				fr.i.env.md5uf[sig] = out
+				return append(array(nil), out...)
 			}
 			b[j] = bb
 		}
